@@ -41,6 +41,7 @@ var swaps = map[token.Token][]token.Token{
 func main() {
 	file := flag.String("file", "", "")
 	out := flag.String("out", "", "")
+	set := flag.Int("set", 1, "operator set: 1 = operator swaps / literals / statement deletion, 2 = len(x)+-1, copy removal (append([]T{}, x...) -> x), conditions forced true/false")
 	flag.Parse()
 	src, err := os.ReadFile(*file)
 	if err != nil {
@@ -87,6 +88,10 @@ func main() {
 			fn = b.String() + "." + fn
 		}
 		if fd.Name.Name == "String" || strings.HasPrefix(fd.Name.Name, "Verif") || strings.HasPrefix(fd.Name.Name, "verif") {
+			continue
+		}
+		if *set == 2 {
+			mutateSet2(fd, fn, emit)
 			continue
 		}
 		// statement-level mutations
@@ -195,4 +200,73 @@ func main() {
 	b, _ := json.MarshalIndent(index, "", " ")
 	os.WriteFile(filepath.Join(*out, "index.json"), b, 0o644)
 	fmt.Println(len(index), "mutants of", *file)
+}
+
+// mutateSet2: len(x) -> len(x)+1 / len(x)-1; append([]T{}, x...) -> x (a copy becomes an alias); if conditions forced to true / false.
+func mutateSet2(fd *ast.FuncDecl, fn string, emit func(token.Pos, string, string)) {
+	// replace expressions in place through their parents
+	replaceExpr := func(get func() ast.Expr, set func(ast.Expr)) {
+		e := get()
+		if call, ok := e.(*ast.CallExpr); ok {
+			if id, ok := call.Fun.(*ast.Ident); ok && id.Name == "len" && len(call.Args) == 1 {
+				for _, op := range []token.Token{token.ADD, token.SUB} {
+					set(&ast.ParenExpr{X: &ast.BinaryExpr{X: call, Op: op, Y: &ast.BasicLit{Kind: token.INT, Value: "1"}}})
+					emit(call.Pos(), fn, "len(x) -> len(x)"+op.String()+"1")
+					set(call)
+				}
+			}
+			if id, ok := call.Fun.(*ast.Ident); ok && id.Name == "append" && len(call.Args) == 2 && call.Ellipsis.IsValid() {
+				if cl, ok := call.Args[0].(*ast.CompositeLit); ok && len(cl.Elts) == 0 {
+					set(call.Args[1])
+					emit(call.Pos(), fn, "append([]T{}, x...) -> x (copy becomes alias)")
+					set(call)
+				}
+			}
+		}
+	}
+	ast.Inspect(fd.Body, func(n ast.Node) bool {
+		switch v := n.(type) {
+		case *ast.BinaryExpr:
+			replaceExpr(func() ast.Expr { return v.X }, func(e ast.Expr) { v.X = e })
+			replaceExpr(func() ast.Expr { return v.Y }, func(e ast.Expr) { v.Y = e })
+		case *ast.AssignStmt:
+			for i := range v.Rhs {
+				i := i
+				replaceExpr(func() ast.Expr { return v.Rhs[i] }, func(e ast.Expr) { v.Rhs[i] = e })
+			}
+		case *ast.CallExpr:
+			for i := range v.Args {
+				i := i
+				replaceExpr(func() ast.Expr { return v.Args[i] }, func(e ast.Expr) { v.Args[i] = e })
+			}
+		case *ast.IndexExpr:
+			replaceExpr(func() ast.Expr { return v.Index }, func(e ast.Expr) { v.Index = e })
+		case *ast.SliceExpr:
+			if v.Low != nil {
+				replaceExpr(func() ast.Expr { return v.Low }, func(e ast.Expr) { v.Low = e })
+			}
+			if v.High != nil {
+				replaceExpr(func() ast.Expr { return v.High }, func(e ast.Expr) { v.High = e })
+			}
+		case *ast.ReturnStmt:
+			for i := range v.Results {
+				i := i
+				replaceExpr(func() ast.Expr { return v.Results[i] }, func(e ast.Expr) { v.Results[i] = e })
+			}
+		case *ast.KeyValueExpr:
+			replaceExpr(func() ast.Expr { return v.Value }, func(e ast.Expr) { v.Value = e })
+		case *ast.IfStmt:
+			old := v.Cond
+			v.Cond = ast.NewIdent("true")
+			emit(v.Pos(), fn, "if condition -> true")
+			v.Cond = ast.NewIdent("false")
+			emit(v.Pos(), fn, "if condition -> false")
+			v.Cond = old
+		case *ast.ForStmt:
+			if v.Cond != nil {
+				replaceExpr(func() ast.Expr { return v.Cond }, func(e ast.Expr) { v.Cond = e })
+			}
+		}
+		return true
+	})
 }
